@@ -133,10 +133,15 @@ RVALS = VALUES + [{"k": "int", "v": "-1"}, {"k": "int", "v": "10"}, {"k": "str",
                   {"k": "str", "v": "true"}, {"k": "float", "m": "-25", "e": -1}, {"k": "str", "v": "abc"}]
 
 
-def random_doc(rng, budget=25, depth=0, anchors=None):
+PUNCT_KEYS = ["a.b", "a/b", "a\\b", "(a)", "a[0]", "[b", "a]", "^a", "a$", "%a", "x y", "it's", 'q"q', "a", "b", 1]
+
+
+def random_doc(rng, budget=25, depth=0, anchors=None, keys=None):
     """Random document with <= budget nodes: maps, seqs, Arrays-of-Hashes, sets, anchors/aliases."""
     if anchors is None:
         anchors = {}
+    if keys is None:
+        keys = RKEYS
     r = rng.random()
     if budget <= 1 or depth > 4 or r < 0.25:
         if anchors and rng.random() < 0.08:
@@ -151,7 +156,7 @@ def random_doc(rng, budget=25, depth=0, anchors=None):
     if r < 0.33:
         n = rng.randint(0, min(4, budget - 1))
         ms = []
-        for k in rng.sample(RKEYS[:8], n):
+        for k in rng.sample(keys[:8], n):
             if not (k in (1, 0) and False):
                 ms.append(k)
         # no int next to its string twin; no 1/True clashes (bools are not generated as keys)
@@ -172,16 +177,16 @@ def random_doc(rng, budget=25, depth=0, anchors=None):
                 es = []
                 for k in keyset:
                     if rng.random() < 0.8:
-                        es.append([k, random_doc(rng, max(1, share // max(1, len(keyset))), depth + 2, anchors)])
+                        es.append([k, random_doc(rng, max(1, share // max(1, len(keyset))), depth + 2, anchors, keys)])
                 items.append({"k": "map", "e": es})
         out = {"k": "seq", "i": items}
     elif r < 0.72:
-        out = {"k": "seq", "i": [random_doc(rng, share, depth + 1, anchors) for _ in range(nkids)]}
+        out = {"k": "seq", "i": [random_doc(rng, share, depth + 1, anchors, keys) for _ in range(nkids)]}
     else:
-        ks = rng.sample(RKEYS, nkids)
+        ks = rng.sample(keys, min(nkids, len(keys)))
         if "1" in ks and 1 in ks:
             ks.remove("1")
-        out = {"k": "map", "e": [[k, random_doc(rng, share, depth + 1, anchors)] for k in ks]}
+        out = {"k": "map", "e": [[k, random_doc(rng, share, depth + 1, anchors, keys)] for k in ks]}
     if rng.random() < 0.06:
         name = rng.choice(["x", "y", "z"])
         if name not in anchors:
@@ -784,7 +789,9 @@ def c02_compare(case, kinds, req, m_req, d, table, stats, report, viol):
         stats["requeries"] += 1
         rq, rd, rtable = run_query(case["doc"], ptxt, "req")
         got = None if rq.get("err") else [addr_only(x) for x in rq["res"]]
-        anchored_last = False
+        last_is_anchor = bool(ptxt) and "[&" in ptxt.rsplit(".", 1)[-1] and ptxt.endswith("]")
+        if last_is_anchor and got is not None and a in got:
+            continue
         if got != [a]:
             report(viol, "c02:path-does-not-reresolve:%s" % kinds,
                    "%r: result %s reports path %r, which evaluates to %s" % (text, a, ptxt, rq.get("err") or got),
